@@ -117,6 +117,7 @@ type orderChecker struct {
 	loopsN   int
 	prodN    int
 	injCache map[ssa.Value]bool
+	callers  func(*ssa.Function) []ssa.CallInstruction
 }
 
 type slotClass int
@@ -1162,7 +1163,36 @@ func (oc *orderChecker) checkUnorderedUses(v ssa.Value, producer *loopInfo, what
 					visit(x, fn, depth+1)
 				}
 			case *ssa.Return:
-				fail("returned to the caller in nondeterministic order")
+				// the unordered slice is the function's result: its uses at every call site must be order-insensitive
+				if oc.callers == nil {
+					oc.callers = callersIndex(oc.c)
+				}
+				sites := oc.callers(x.Parent())
+				if len(sites) == 0 {
+					fail("returned to the caller in nondeterministic order (no static call site to follow)")
+					continue
+				}
+				for ri, res := range x.Results {
+					if res != v {
+						continue
+					}
+					for _, site := range sites {
+						sv := site.Value()
+						if sv == nil {
+							fail("returned into a go/defer statement")
+							continue
+						}
+						if len(x.Results) == 1 {
+							visit(sv, site.Parent(), depth+1)
+						} else {
+							for _, rr := range *sv.Referrers() {
+								if e, ok := rr.(*ssa.Extract); ok && e.Index == ri {
+									visit(e, site.Parent(), depth+1)
+								}
+							}
+						}
+					}
+				}
 			case *ssa.MakeInterface:
 				if sortCall != nil && feeds(v, sortCall) {
 					continue
